@@ -274,7 +274,7 @@ func (st *State) addressOf(e ast.Expr) Val {
 	case *ast.CompositeLit:
 		v := st.evalCompositeLit(x)
 		t := st.typeOf(x)
-		ref := st.allocRef()
+		ref := st.allocObject(t)
 		st.storePointee(ref, t, v)
 		return vInt(ref, types.NewPointer(t))
 	case *ast.IndexExpr:
@@ -292,6 +292,9 @@ func (st *State) addressOf(e ast.Expr) Val {
 				base := st.eval(x.X)
 				st.obligeNonNil(base, x.Pos(), exprStr(x.X))
 				_, structT := structOf(bt)
+				if base.K == KInt && interiorIndex(structT, sel.Obj().Name()) > 0 {
+					return st.loadField(nil, base.S, structT, sel.Obj().Name())
+				}
 				if base.K == KInt {
 					return Val{K: KPtrElem, T: types.NewPointer(sel.Obj().Type()), S: sel.Obj().Name(), Sub: []Val{base}, Obj: nil, Sort: "field", Fn: nil}.withStruct(structT)
 				}
@@ -433,6 +436,12 @@ func (st *State) evalSelector(x *ast.SelectorExpr) Val {
 
 func (st *State) selectPath(cur Val, curT types.Type, path []int, x *ast.SelectorExpr) Val {
 	for _, idx := range path {
+		if cur.K == KInt && cur.T != nil {
+			// an interior object stands for its own address
+			if p, ok := cur.T.Underlying().(*types.Pointer); ok && types.Identical(p.Elem(), curT) {
+				curT = cur.T
+			}
+		}
 		s, structT := structOf(curT)
 		if s == nil {
 			panic(vcErr("selector on non-struct " + curT.String()))
